@@ -18,7 +18,7 @@ def ref_apply(ref, cmd):
     expected outcome: 'ok', 'DSOLError' or None when the statement leaves the
     outcome open (bound outside [clock, end])."""
     name = cmd[0]
-    if name == "initialize":
+    if name in ("initialize", "initialize_b"):
         ref.initialize(cmd[1] if len(cmd) > 1 else None)
         return "ok"
     if name == "cleanup":
@@ -173,7 +173,7 @@ def check_clock_monotone(H):
                          "handler of event %s ran at clock %s after a handler "
                          "had run at %s" % (h[1], h[2], last))]
             last = h[2]
-        elif h[0] == "cmd" and h[2] == "initialize" and h[3] == "return":
+        elif h[0] == "cmd" and h[2] in ("initialize", "initialize_b") and h[3] == "return":
             last = None
     return []
 
